@@ -307,9 +307,22 @@ func runC05(sc *c05Script, rng *rand.Rand) (res c05Result) {
 	connectDone := make(chan error, 1)
 	go func() { connectDone <- conn.Connect() }()
 
+	var subsSeenFn func() int
 	deadline := time.Now().Add(40 * time.Second)
 	waitFor := func(cond func() bool) bool {
+		startSubs, startGot := -1, int64(-1)
 		for !cond() {
+			// bounded progress: many further subscriptions without a single new event reaching the
+			// client is a livelock (for instance every reconnection failing in the same way), not
+			// something more waiting can cure
+			if sN := subsSeenFn(); startSubs < 0 {
+				startSubs, startGot = sN, clientGot.Load()
+			} else if clientGot.Load() != startGot {
+				startSubs, startGot = sN, clientGot.Load()
+			} else if sN >= startSubs+25 {
+				addFinding([]string{"no_progress_livelock"}, "the server accepted %d further subscriptions from the client without a single new event reaching it (client has %d events)", sN-startSubs, startGot)
+				return false
+			}
 			fmu.Lock()
 			nf := len(res.Findings)
 			fmu.Unlock()
@@ -339,6 +352,7 @@ func runC05(sc *c05Script, rng *rand.Rand) (res c05Result) {
 		}
 		return n
 	}
+	subsSeenFn = subsSeen
 	seq := 0
 	var lastPutFake int64
 	bigNext := false
